@@ -43,6 +43,12 @@ def plain(id, t=True, o=None):
     if o is not None:
         v['o'] = o
     return v
+def none():
+    """the value None as an element of a sequence (a legitimate element, not the end of anything)"""
+    return {'k': 'plain', 'id': 'None', 't': False, 'fid': 'None', 'none': True}
+def byt(text):
+    """a bytes value (only returned by dtml-return, never inserted): its identity is its repr"""
+    return {'k': 'plain', 'id': repr(text.encode('utf-8')), 't': True, 'bytes': text}
 def num(n): return {'k': 'plain', 'id': str(n), 't': n != 0, 'num': n, 'o': n}
 def fn(id, r, beh='ok'): return {'k': 'fn', 'id': id, 'r': r, 'beh': beh}
 def tmpl(id, prog, gl=None): return {'k': 'tmpl', 'id': id, 'prog': prog, 'gl': gl or {}}
@@ -142,7 +148,8 @@ def compile_case(case):
 def _ref(r, tagattr=True):
     k = r['k']
     if k == 'name':
-        return r['n']
+        n = r['n']
+        return n if all(c.isalnum() or c in '_-.' for c in n) else 'name="%s"' % n
     if k == 'call':
         return 'expr="%s()"' % r['n']
     if k == 'val':
@@ -175,7 +182,7 @@ def pr(prog, sty='dtml'):
         if t == 'text':
             out.append(n['s'])
         elif t == 'var':
-            out.append(o('var', n['n']))
+            out.append(o('var', _ref({'k': 'name', 'n': n['n']})))
         elif t == 'probe':
             nm = n['n']
             arg = nm if nm.replace('_', 'a').isalnum() else "_.getitem('%s', 0)" % nm
@@ -299,6 +306,10 @@ def ident(v):
 def conc(v, sty='dtml'):
     k = v['k']
     if k == 'plain':
+        if 'bytes' in v:
+            return v['bytes'].encode('utf-8')
+        if v.get('none'):
+            return None
         if 'num' in v:
             return v['num']
         if v['t']:
@@ -316,7 +327,9 @@ def conc(v, sty='dtml'):
     if k == 'obj':
         return Obj(v['id'], {a: conc(x, sty) for a, x in v['a'].items()})
     if k == 'map':
-        return {a: conc(x, sty) for a, x in v['a'].items()}
+        m = {a: conc(x, sty) for a, x in v['a'].items()}
+        REG[id(m)] = (m, v['id'])
+        return m
     if k == 'list':
         items = [conc(x, sty) for x in v['items']]
         ck = v.get('ck', 'list')
@@ -328,10 +341,25 @@ def conc(v, sty='dtml'):
             return iter(items)
         if ck == 'lazy':
             return LazyList(items)
+        REG[id(items)] = (items, v['id'])
         return items
     if k == 'pair':
         return (conc(v['key'], sty), conc(v['v'], sty))
     raise ValueError(k)
+
+
+REG = {}       # id(container) -> (container, value id): dtml-return must hand back the very object
+
+
+def ident_result(r):
+    if isinstance(r, str):
+        return r
+    if hasattr(r, 'vid'):
+        return ident(r)
+    e = REG.get(id(r))
+    if e is not None and e[0] is r:
+        return e[1]
+    return str(r)
 
 
 class LazyList:
@@ -399,6 +427,7 @@ def run_case(case, plan, sty='dtml', cls=None, cache_key=None):
     {result: [...], calls: [...], evs: [...], ninv, level, depth}"""
     from DocumentTemplate.DT_HTML import HTML
     install()
+    REG.clear()
     s = case['src']
     cv = lambda d: {a: conc(x, sty) for a, x in d.items()}  # noqa
     src = pr(case['prog'], sty)
@@ -419,7 +448,7 @@ def run_case(case, plan, sty='dtml', cls=None, cache_key=None):
     try:
         try:
             r = t(client, mapping, **kw)
-            res = ['ok', r if isinstance(r, str) else ident(r) if hasattr(r, 'vid') else str(r)]
+            res = ['ok', ident_result(r)]
         except Exception as e:  # noqa
             a = e.args[0] if e.args else ''
             res = ['exc', type(e).__name__, a if isinstance(a, str) else repr(a)]
@@ -450,7 +479,7 @@ def expected(model):
     else:
         m = r['msg']
         res = ['exc', r['cls'], _flat(m)]
-    evs = [[e[0], 'map' if e[1] == 'cache' else e[1], e[2]] for e in model['evs']]
+    evs = [[e[0], 'map' if e[1] in ('cache', 'none') else e[1], e[2]] for e in model['evs']]
     return {'result': res, 'calls': model['calls'], 'evs': evs, 'ninv': model['ninv'],
             'depth': model['depth'], 'level': model['level']}
 
